@@ -85,6 +85,13 @@ def gen(rng, tier, i):
         ops.append('%smany %s 1000 %d' % (act, s, rng.choice((66, 70, 132))))
         ops.append('%srb %s' % (act, s)); ops.append('%sdrop many%s' % (act, s)); ops.append('%srb %s' % (act, s))
         ops.append('%suse %s copy' % (act, s))
+    if rng.random() < 0.25:
+        # the command giver destructs itself inside its own command, then another object starts a call_out (which remembers the command giver)
+        ops = [o for o in ops if not o.startswith('as a cyc ')]     # a is destructed inside the round: it could not undo a cycle
+        cyc = [c for c in cyc if c[0] != 'as a ']
+        # b defines the action, a is the living inside b that uses it: b's function runs with a as command giver, destructs a, then starts a call_out
+        ops += ['as b mk sg arr 3', 'sc b init addx', 'as a ec', 'move a b', 'sc b x dest tp,%s sg %d' % (rng.choice(('cov', 'covf')), rng.randint(1, 2)), 'as a cmd x']
+        used_cov = True
     fk = rng.randint(0, 60 * n) if rng.random() < 0.4 else None
     tmpl = {'ops': ops, 'cyc': [list(c) for c in cyc], 'objslots': objslots, 'fk': fk, 'used_cov': used_cov, 'used_itv': used_itv,
             'kinds': sorted(kinds_used), 'shared': shared, 'many': bool(many), 'many_kind': p.meta.get('many_kind')}
